@@ -329,7 +329,7 @@ func areaOfMarkerAddr(v ssa.Value, endMarker *types.Var) string {
 // the data area.  The meta area's end marker doubles as the end of the file (the overflow area is carved
 // out beyond it), so whoever advances the data end marker pulls the meta end marker up to it.
 func ruleFILEENDAGREE(p *Program, rep *Report) {
-	rep.Rule("FILE-END-AGREE", 2, "the routines that advance the data area's end marker agree on maintaining 'meta end marker ≥ data end marker': after the advance, on every path, the meta end marker is raised to the data end marker (possibly under the test meta < data). If some do and one does not, overflow pages are later carved out at a stale meta end marker, inside pages already handed out")
+	rep.Rule("FILE-END-AGREE", 1, "the routines that advance the data area's end marker agree on maintaining 'meta end marker ≥ data end marker': after the advance, on every path, the meta end marker is raised to the data end marker (possibly under the test meta < data). If some do and one does not, overflow pages are later carved out at a stale meta end marker, inside pages already handed out")
 	v := newAllocVocab(p)
 	isMarkerLoadOf := func(x ssa.Value, area string) bool {
 		u, ok := stripConv(x).(*ssa.UnOp)
@@ -530,32 +530,63 @@ func ruleSYNCCOVERSBATCH(p *Program, rep *Report) {
 		return fromCount && loadedField(bo.Y) == published
 	}
 	n := 0
-	for _, b := range fn.Blocks {
-		for _, ins := range b.Instrs {
-			bo, ok := ins.(*ssa.BinOp)
-			if !ok {
-				continue
-			}
-			var bound ssa.Value
-			switch bo.Op {
-			case token.LEQ, token.LSS:
-				if isOutstanding(bo.X) {
-					bound = bo.Y
+	reach := staticReach(p, fn)
+	// prove: bound ≤ len(buf); a bound that is a parameter of a helper is proved at every call of that helper
+	var prove func(bound ssa.Value, in *ssa.Function, depth int) bool
+	prove = func(bound ssa.Value, in *ssa.Function, depth int) bool {
+		if depth > 3 {
+			return false
+		}
+		if par, ok := stripConv(bound).(*ssa.Parameter); ok && in != fn {
+			pi := paramIndex(in, par)
+			sites := 0
+			for _, site := range p.callIndex().sites[in] {
+				if !reach[site.Parent()] {
+					continue
 				}
-			case token.GEQ, token.GTR:
-				if isOutstanding(bo.Y) {
-					bound = bo.X
+				sites++
+				if pi < 0 || pi >= len(site.Common().Args) || !prove(site.Common().Args[pi], site.Parent(), depth+1) {
+					return false
 				}
 			}
-			if bound == nil {
-				continue
-			}
-			n++
-			key := "writer.nextCommand|fsync-decision"
-			if proveLELen(bound, buf, 0) {
-				rep.OK("SYNC-COVERS-BATCH", key, p.InstrPos(ins), "bound ≤ len(buf) on every path")
-			} else {
-				rep.Bad("SYNC-COVERS-BATCH", key, p.InstrPos(ins), "the fsync is taken when the outstanding writes are ≤ a bound that is not limited to len(buf): with more queued writes than the batch buffer holds the fsync runs after the first len(buf) writes only — later page writes and the header of the same commit are not covered by the barrier they were scheduled before")
+			return sites > 0
+		}
+		if in != fn {
+			return false
+		}
+		return proveLELen(bound, buf, 0)
+	}
+	for _, f2 := range sortedFns(reach) {
+		if fnPkgPath(f2) != modPath {
+			continue
+		}
+		for _, b := range f2.Blocks {
+			for _, ins := range b.Instrs {
+				bo, ok := ins.(*ssa.BinOp)
+				if !ok {
+					continue
+				}
+				var bound ssa.Value
+				switch bo.Op {
+				case token.LEQ, token.LSS, token.GEQ, token.GTR:
+					// either orientation / polarity of the decision (`outstanding <= max` or `outstanding > max`)
+					if isOutstanding(bo.X) {
+						bound = bo.Y
+					} else if isOutstanding(bo.Y) {
+						bound = bo.X
+					}
+				}
+				if bound == nil {
+					continue
+				}
+				n++
+				rep.Analysed(funcName(f2))
+				key := "writer.nextCommand|fsync-decision"
+				if prove(bound, f2, 0) {
+					rep.OK("SYNC-COVERS-BATCH", key, p.InstrPos(ins), "bound ≤ len(buf) on every path")
+				} else {
+					rep.Bad("SYNC-COVERS-BATCH", key, p.InstrPos(ins), "the fsync is taken when the outstanding writes are ≤ a bound that is not limited to len(buf): with more queued writes than the batch buffer holds the fsync runs after the first len(buf) writes only — later page writes and the header of the same commit are not covered by the barrier they were scheduled before")
+				}
 			}
 		}
 	}
